@@ -133,7 +133,7 @@ static void on_spec(const rk_spec *s, void *u) {
 
 void prop_enumerate(void) {
   const char *mode = vx_arg("mode", "tiny");
-  if (!strcmp(mode, "tiny")) tiny(vx_tier ? 12 : 9, vx_tier ? 10 : 8);
+  if (!strcmp(mode, "tiny")) tiny(vx_tier ? 12 : 9, vx_tier ? 9 : 8);
   else if (!strcmp(mode, "lift")) rk_enumerate(1 << F_LIFT, 0, vx_tier ? 9 : 6, on_spec, NULL);
   else if (!strcmp(mode, "struct")) rk_enumerate((1 << F_ECH) | (1 << F_RK) | (1 << F_BND), 0, 0, on_spec, NULL);
   else if (!strcmp(mode, "rec")) rk_enumerate((1 << F_REC) | (1 << F_RECW), 0, 0, on_spec, NULL);
